@@ -696,3 +696,20 @@ Proof.
   destruct (covered_record_resolves oldest w a Hbase (Hcv a Ha) (St a Ha) Wk H32 H16) as [Q1 Q2].
   rewrite Hr1 in Q1. cbn [fst snd] in Q1. rewrite Hr2 in Q1. split; [exact Q1|exact Q2].
 Qed.
+
+(** ---- the link checks over all incarnations of an observation ---- *)
+Fixpoint l_incs (cfgsx objs : sx) (incs hists : list sx) (m : mst) : bool :=
+  match incs, hists with
+  | inc :: incs', h :: hists' =>
+      match sx_list h with
+      | e0 :: es =>
+          let ops := sx_list (sx_nth inc 1) in
+          l_all cfgsx objs ops (mon_entry cfgsx objs ops m e0) (l0 m) es &&
+          l_incs cfgsx objs incs' hists' (mon_exit (fold_left (mon_entry cfgsx objs ops) (e0 :: es) m))
+      | [] => true
+      end
+  | _, _ => true
+  end.
+
+Definition l_obs (inp obs : sx) : bool :=
+  l_incs (sx_nth inp 0) (sx_nth inp 1) (sx_list (sx_nth inp 2)) (sx_list obs) m_init.
